@@ -17,6 +17,7 @@ if st:
 head = subprocess.run(["git", "-C", repo, "rev-parse", "--short", "HEAD"], capture_output=True, text=True).stdout.strip()
 P = Program(repo)
 names = sorted(f.qualname for f in P.all_funcs())
+classes = sorted(P.classes)
 out = os.path.join(os.path.dirname(os.path.dirname(os.path.abspath(__file__))), "xstatic", "reference_functions.json")
-json.dump({"reference_commit": head, "count": len(names), "functions": names}, open(out, "w"), indent=0)
+json.dump({"reference_commit": head, "count": len(names), "functions": names, "classes": classes}, open(out, "w"), indent=0)
 print("wrote", out, len(names), "functions at", head)
